@@ -37,6 +37,44 @@ class SqlWorld:
                 self.conn.execute(table.insert(), [{"dummy_": 0} for _ in rows])
         return sql.Payload(table, columns_available={c: table.columns[c.qualified_name] for c in cols})
 
+    def eval_on_row(self, engine, row: dict, predicate=None, expression=None) -> str:
+        """Value of the engine's SQL translation of a predicate/expression on ONE row, computed
+        by the database (a one-row table holding the row)."""
+        cols = sorted(row, key=str)
+        key = tuple(c.qualified_name for c in cols)
+        cache = getattr(self, "_rowtables", None)
+        if cache is None:
+            cache = self._rowtables = {}
+        if key not in cache:
+            name = self.fresh_name("row")
+            table = sqlalchemy.Table(
+                name, self.metadata, *[sqlalchemy.Column(c.qualified_name, sqlalchemy.Integer) for c in cols]
+            ) if cols else None
+            if table is not None:
+                table.create(self.conn)
+            cache[key] = table
+        table = cache[key]
+        try:
+            if table is not None:
+                self.conn.execute(table.delete())
+                self.conn.execute(table.insert(), [{c.qualified_name: v for c, v in row.items()}])
+                avail = {c: table.columns[c.qualified_name] for c in cols}
+            else:
+                avail = {}
+            if predicate is not None:
+                sqlp = engine.convert_predicate(predicate, avail)
+                q = sqlalchemy.select(sqlalchemy.literal(1)).where(sqlp)
+                if table is not None:
+                    q = q.select_from(table)
+                return "T" if self.conn.execute(q).fetchall() else "F"
+            sqle = engine.convert_column_expression(expression, avail)
+            q = sqlalchemy.select(sqle)
+            if table is not None:
+                q = q.select_from(table)
+            return str(int(self.conn.execute(q).fetchall()[0][0]))
+        except Exception as e:  # noqa: BLE001
+            return "err:" + type(e).__name__
+
     def fresh_name(self, prefix: str = "tmp") -> str:
         self.tmp += 1
         return f"{prefix}{self.tmp}"
